@@ -75,7 +75,7 @@ pub fn cases(thorough: bool) -> Vec<Case> {
 }
 pub fn run(ctx: &Ctx) {
     let cs = cases(ctx.thorough()); let slow: std::sync::Mutex<Vec<(u128, String)>> = Default::default();
-    ctx.sweep("cli-union", "every parser reachable from the command line at its numeric and size boundaries (phrases of 0..40 words, path and index edits around 2^31/2^32/2^64, signature and digest text, chain ids to 2^256-1 and beyond, JSON literals, nesting to 128 and beyond, array-suffix depth to 64, hex, generation lengths, vanity prefixes of 0..3 digits x worker counts 0..64) x both builds: exit status must be 0, 255 or 2 within the timeout", (cs.len() * 2) as u64, |i| {
+    ctx.sweep("cli-union", "every parser reachable from the command line at its numeric and size boundaries (phrases of 0..40 words, path and index edits around 2^31/2^32/2^64, signature and digest text, chain ids to 2^256-1 and beyond, JSON literals, nesting to 128 and beyond, array-suffix depth to 64, hex, generation lengths, vanity prefixes of 0..3 digits x worker counts 0..64) x both builds: exit status must be 0 or an ordinary error status (not 101, not a signal) within the timeout", (cs.len() * 2) as u64, |i| {
         let case = &cs[i as usize / 2]; let build = [Build::Release, Build::Checked][i as usize % 2];
         let (r, full) = match &case.shim { Some(m) => { let (r, _, f) = run_shimmed(&case.cmd, build, m, "cli-union", i); (r, f) } None => (case.cmd.run(build), case.cmd.clone()) };
         { let mut g = slow.lock().unwrap(); g.push((r.wall_ms, format!("{} [{build:?}]", trunc(&case.cmd.shown(), 120)))); g.sort_by(|a, b| b.0.cmp(&a.0)); g.truncate(8); }
@@ -84,5 +84,5 @@ pub fn run(ctx: &Ctx) {
         if r.crashed() { ctx.panic_violation(format!("{P}:cli:{}:{}", case.class, r.crash_kind()), format!("{}: {}", trunc(&full.shown(), 400), r.describe()), full.replay("cli-union", i, build)) }
     });
     ctx.set_extra("slowest_cases_ms", serde_json::json!(slow.lock().unwrap().clone()));
-    ctx.guard_check("all three ordinary exit statuses observed", ctx.classes_matching(|c| c.ends_with(":exit0")) > 0 && ctx.classes_matching(|c| c.ends_with(":exit255")) > 0 && ctx.classes_matching(|c| c.ends_with(":exit2")) > 0, "exit 0, 255 and 2 all occurred");
+    ctx.guard_check("success and refusal both observed", ctx.classes_matching(|c| c.ends_with(":exit0")) > 0 && ctx.classes_matching(|c| !c.ends_with(":exit0")) > 0, "exit 0 and a non-zero exit status both occurred");
 }
